@@ -169,6 +169,17 @@ def check_cli(ctx, src, p, config, keep_file, workdir, case):
     if problem is not None:
         ctx.violation('p8tool luamin: ' + problem[1], case, key=classify(want, problem))
         return
+    # the number `p8tool stats` prints for the cart before and after (every third command-line case: stats also compresses the code)
+    if ctx.monitors.get('cli_luamin_runs', 0) % 3 == 1:
+        try:
+            s_in, s_out = minify.stats_cli(p1), minify.stats_cli(pf)
+        except BaseException as e:
+            ctx.violation('p8tool stats failed: %r' % (e,), case)
+            return
+        ctx.monitor('cli_stats_compared')
+        if s_in['tokens'] is None or s_in['tokens'] != s_out['tokens']:
+            ctx.violation('`p8tool stats` reports %r tokens for the cart and %r for its minified form' % (s_in['tokens'], s_out['tokens']), case)
+            return
     if config == 'default':
         out2 = os.path.join(workdir, 'b.p8')
         if os.path.exists(out2):
@@ -338,6 +349,8 @@ def gates(m, tier):
     if f.get('table-method-with-block-then-line-scope', 0) < 30 or f.get('num:random', 0) < 100:
         missed.append('table methods with a block then a line-scoped statement: %d programs; random numerals: %d programs'
                       % (f.get('table-method-with-block-then-line-scope', 0), f.get('num:random', 0)))
+    if mon.get('cli_stats_compared', 0) < 20:
+        missed.append('stats command compared: %d' % mon.get('cli_stats_compared', 0))
     if mon.get('cli_luamin_runs', 0) < 20 or mon.get('cli_build_minify_runs', 0) < 5:
         missed.append('CLI paths: luamin %d, build %d' % (mon.get('cli_luamin_runs', 0), mon.get('cli_build_minify_runs', 0)))
     # keep evidence small: drop the raw pair lists
